@@ -3,6 +3,7 @@ import OvniModel.Emu.Breakdown
 import OvniModel.Lemmas.Sort
 import OvniModel.Lemmas.SortState
 import OvniModel.Lemmas.Breakdown
+import OvniModel.Lemmas.BreakdownSys
 
 /-!
 # C20 — breakdown view: the rows hold the sorted per-CPU breakdown values
@@ -259,7 +260,45 @@ theorem muxes_right_in_any_order (k : Consts) (c : Cpu) (sets : List (Src × Val
   let p := step_post k c sets hq
   tri_of_delivered k _ p.didle p.dtr
 
+/-! ## the whole breakdown -/
+
+/-- **The rows of the breakdown view.**  For any number of CPUs and any
+    history of propagations of the whole patch-bay (any channels of any CPUs in
+    any order), what the rows show is non-decreasing from the first row to the
+    last and is exactly the multiset of the values the sort module has seen on
+    each CPU's `tri` channel (`NULL` counting as 0).  Together with
+    `breakdown_value` (that value is `spec(ss, tt, idle)` for a CPU whose
+    selection is fresh) this is the property; `stale_select_classes` says what
+    the row shows otherwise. -/
+theorem system_rows (k : Consts) (qs : List Int → List Int) (hq : IsSort qs) (n : Nat)
+    (hist : List (List (Nat × Src × Value))) :
+    let S := runSys k qs n hist
+    Sorted (rows S.sort) ∧ (rows S.sort).Perm (S.cpus.map (fun c => c.seen.toInt)) ∧
+      (rows S.sort).length = S.cpus.length := by
+  intro S
+  have hi := runSys_inv k qs hq n hist
+  have hr := rows_of_inv S.sort hi.sort
+  refine ⟨hr.1, hi.vals ▸ hr.2, ?_⟩
+  simp only [rows, List.length_map]
+  exact hi.sort.lenO.trans hi.len
+-- The per-CPU theorems above are about `step` (one CPU's walk of the dirty
+-- list); `stepSys` walks the global list.  That the first is the projection of
+-- the second is not proved here: the driver checks it on every line it
+-- executes (it prints `proj-mismatch` otherwise), i.e. on all unit and e2e
+-- cases of the correspondence run.
+
+example : rows (runSys nosv isort 2 [[(0, .tt, .null), (0, .ss, .null), (0, .idle, .int 100)],
+    [(0, .ss, .int 11), (0, .tt, .int 7)], [(1, .tt, .null), (1, .ss, .int 6), (1, .idle, .int 100)]]).sort
+    = [6, 7] := by decide
+
 /-! ### Non-vacuity and the concrete witnesses -/
+
+example : Quiescent nosv Cpu.init := quiescent_init nosv
+
+/-- The emulator's orders satisfy the order hypothesis: `th_running` change
+    (`tt`, `ss`, `idle`), `VTx`/`VTe` (`ss`, `tt`), single-channel events. -/
+example : orderOk (dedup [.tt, .ss, .idle]) = true ∧ orderOk (dedup [.ss, .tt]) = true ∧
+    orderOk (dedup [.idle]) = true ∧ orderOk (dedup [.idle, .ss]) = false := by decide
 
 def hOHx : List (Src × Value) := [(.tt, .null), (.ss, .null), (.idle, .int 100)]
 def hVTx : List (Src × Value) := [(.ss, .int 11), (.tt, .int 7)]
